@@ -374,6 +374,15 @@ func (m *TermVote) Attach(c *sim.Cluster) {
 	m.granted = map[[2]uint64]string{}
 	m.pending = nil
 	m.stBefore = make([]sim.StateDisk, len(c.Nodes))
+	prevD := c.Net.OnDeliver
+	c.Net.OnDeliver = func(msg *sim.Msg) {
+		if prevD != nil {
+			prevD(msg)
+		}
+		// stored (term, vote) right before the handler runs (a macro event
+		// delivers many messages between two quiescent points)
+		m.stBefore[msg.To] = *c.Nodes[msg.To].St
+	}
 	prev := c.Net.OnResponse
 	c.Net.OnResponse = func(msg *sim.Msg) {
 		if prev != nil {
